@@ -146,7 +146,7 @@ func init() {
 			var jobs []run.Job
 			n, per := 32, 5000
 			if tier == "thorough" {
-				n, per = 128, 8000
+				n, per = 128, 30000
 			}
 			for i := 0; i < n; i++ {
 				jobs = append(jobs, run.Job{Family: "filesets", Seed: seed*100000 + int64(i), N: per})
